@@ -85,6 +85,17 @@ pub enum Expr {
     Try(Box<Expr>),
     Closure(Vec<Pat>, Box<Expr>),
     Macro(String, String),
+    MacroArgs(String, String, Vec<Expr>),
+    While(Box<Expr>, Vec<Stmt>),
+    Loop(Vec<Stmt>),
+    For(Pat, Box<Expr>, Vec<Stmt>),
+    Range(Option<Box<Expr>>, Option<Box<Expr>>, bool),
+    Break(Option<Box<Expr>>),
+    Continue,
+    LetCond(Pat, Box<Expr>),
+    Index(Box<Expr>, Box<Expr>),
+    Array(Vec<Expr>),
+    Repeat(Box<Expr>, Box<Expr>),
     Other(String),
 }
 
@@ -145,6 +156,25 @@ pub struct StructDecl {
 pub struct EnumDecl {
     pub name: String,
     pub variants: Vec<(String, u32)>, // variant name, number of fields
+    /// discriminants of a field-less enum (variant, signed decimal), `None` if the enum has a variant
+    /// with fields or a discriminant that is not an integer literal
+    pub discr: Option<Vec<(String, String)>>,
+    pub source: String,
+}
+
+#[derive(Debug, Clone)]
+pub struct StaticDecl {
+    pub name: String,
+    pub ty: String,
+    pub mutable: bool,
+    pub init: Expr,
+    pub source: String,
+}
+
+#[derive(Debug, Clone)]
+pub struct AliasDecl {
+    pub name: String,
+    pub ty: String,
     pub source: String,
 }
 
@@ -154,6 +184,10 @@ pub struct Output {
     pub consts: Vec<ConstDecl>,
     pub structs: Vec<StructDecl>,
     pub enums: Vec<EnumDecl>,
+    pub statics: Vec<StaticDecl>,
+    pub aliases: Vec<AliasDecl>,
+    /// files of the extended list that are missing or do not parse: (file, reason)
+    pub unavailable: Vec<(String, String)>,
 }
 
 // ---------------------------------------------------------------------------------------------
@@ -734,13 +768,157 @@ pub fn expr(e: &syn::Expr) -> Expr {
             }
             Expr::Closure(c.inputs.iter().map(pat).collect(), bx(expr(&c.body)))
         }
-        syn::Expr::Macro(m) => Expr::Macro(
-            path_segs(&m.mac.path).join("::"),
-            macro_tokens(&m.mac.tokens),
+        syn::Expr::Macro(m) => macro_expr(&m.mac),
+        syn::Expr::While(w) => {
+            if w.label.is_some() {
+                return Expr::Other(tokens_of(e));
+            }
+            Expr::While(bx(expr(&w.cond)), block(&w.body))
+        }
+        syn::Expr::Loop(l) => {
+            if l.label.is_some() {
+                return Expr::Other(tokens_of(e));
+            }
+            Expr::Loop(block(&l.body))
+        }
+        syn::Expr::ForLoop(f) => {
+            if f.label.is_some() {
+                return Expr::Other(tokens_of(e));
+            }
+            Expr::For(pat(&f.pat), bx(expr(&f.expr)), block(&f.body))
+        }
+        syn::Expr::Range(r) => Expr::Range(
+            r.start.as_ref().map(|x| bx(expr(x))),
+            r.end.as_ref().map(|x| bx(expr(x))),
+            matches!(r.limits, syn::RangeLimits::Closed(_)),
         ),
+        syn::Expr::Break(b) => {
+            if b.label.is_some() {
+                return Expr::Other(tokens_of(e));
+            }
+            Expr::Break(b.expr.as_ref().map(|x| bx(expr(x))))
+        }
+        syn::Expr::Continue(c) => {
+            if c.label.is_some() {
+                return Expr::Other(tokens_of(e));
+            }
+            Expr::Continue
+        }
+        syn::Expr::Let(l) => Expr::LetCond(pat(&l.pat), bx(expr(&l.expr))),
+        syn::Expr::Index(i) => Expr::Index(bx(expr(&i.expr)), bx(expr(&i.index))),
+        syn::Expr::Array(a) => Expr::Array(a.elems.iter().map(expr).collect()),
+        syn::Expr::Repeat(r) => Expr::Repeat(bx(expr(&r.expr)), bx(expr(&r.len))),
         syn::Expr::Paren(p) => expr(&p.expr),
         syn::Expr::Group(g) => expr(&g.expr),
         _ => Expr::Other(tokens_of(e)),
+    }
+}
+
+/// Macros whose arguments are a format string and its operands (or an arbitrary message): never parsed.
+const FORMAT_MACROS: [&str; 18] = [
+    "debug", "info", "warn", "error", "trace", "log", "format", "format_args", "print", "println", "eprint",
+    "eprintln", "write", "writeln", "panic", "unreachable", "unimplemented", "todo",
+];
+
+/// `matches!(e, P)` / `matches!(e, P if g)`
+struct MatchesArgs {
+    scrut: syn::Expr,
+    pat: syn::Pat,
+    guard: Option<syn::Expr>,
+}
+
+impl syn::parse::Parse for MatchesArgs {
+    fn parse(input: syn::parse::ParseStream) -> syn::Result<Self> {
+        let scrut: syn::Expr = input.parse()?;
+        input.parse::<syn::Token![,]>()?;
+        let pat = syn::Pat::parse_multi_with_leading_vert(input)?;
+        let guard = if input.peek(syn::Token![if]) {
+            input.parse::<syn::Token![if]>()?;
+            Some(input.parse::<syn::Expr>()?)
+        } else {
+            None
+        };
+        if input.peek(syn::Token![,]) {
+            input.parse::<syn::Token![,]>()?;
+        }
+        if !input.is_empty() {
+            return Err(input.error("unexpected tokens after the pattern"));
+        }
+        Ok(MatchesArgs { scrut, pat, guard })
+    }
+}
+
+/// `vec![x; n]`
+struct RepeatArgs {
+    elem: syn::Expr,
+    len: syn::Expr,
+}
+
+impl syn::parse::Parse for RepeatArgs {
+    fn parse(input: syn::parse::ParseStream) -> syn::Result<Self> {
+        let elem: syn::Expr = input.parse()?;
+        input.parse::<syn::Token![;]>()?;
+        let len: syn::Expr = input.parse()?;
+        if !input.is_empty() {
+            return Err(input.error("unexpected tokens after the length"));
+        }
+        Ok(RepeatArgs { elem, len })
+    }
+}
+
+/// A macro invocation: name + token text always; in addition the arguments as expressions when the
+/// tokens parse as a comma-separated expression list (not attempted for the formatting macros).
+fn macro_expr(mac: &syn::Macro) -> Expr {
+    let name = path_segs(&mac.path).join("::");
+    let toks = macro_tokens(&mac.tokens);
+    let last = mac
+        .path
+        .segments
+        .last()
+        .map(|s| s.ident.to_string())
+        .unwrap_or_default();
+    if FORMAT_MACROS.contains(&last.as_str()) {
+        return Expr::Macro(name, toks);
+    }
+    if last == "matches" {
+        if let Ok(m) = syn::parse2::<MatchesArgs>(mac.tokens.clone()) {
+            // std: `matches!(e, P if g)` is `match e { P if g => true, _ => false }`
+            let arms = vec![
+                Arm {
+                    pat: pat(&m.pat),
+                    guard: m.guard.as_ref().map(expr),
+                    body: Expr::Lit(Lit::Bool(true)),
+                },
+                Arm { pat: Pat::Wild, guard: None, body: Expr::Lit(Lit::Bool(false)) },
+            ];
+            return Expr::MacroArgs(name, toks, vec![Expr::Match(bx(expr(&m.scrut)), arms)]);
+        }
+        return Expr::Macro(name, toks);
+    }
+    if last == "vec" {
+        if let Ok(r) = syn::parse2::<RepeatArgs>(mac.tokens.clone()) {
+            return Expr::MacroArgs(name, toks, vec![Expr::Repeat(bx(expr(&r.elem)), bx(expr(&r.len)))]);
+        }
+    }
+    let parser = syn::punctuated::Punctuated::<syn::Expr, syn::Token![,]>::parse_terminated;
+    match syn::parse::Parser::parse2(parser, mac.tokens.clone()) {
+        Ok(list) => {
+            let mut args: Vec<Expr> = list.iter().map(expr).collect();
+            // the remaining operands of an assertion are its panic message
+            let keep = match last.as_str() {
+                "assert" | "debug_assert" => Some(1),
+                "assert_eq" | "assert_ne" | "debug_assert_eq" | "debug_assert_ne" => Some(2),
+                _ => None,
+            };
+            if let Some(k) = keep {
+                if args.len() < k {
+                    return Expr::Macro(name, toks);
+                }
+                args.truncate(k);
+            }
+            Expr::MacroArgs(name, toks, args)
+        }
+        Err(_) => Expr::Macro(name, toks),
     }
 }
 
@@ -796,13 +974,17 @@ pub fn block(b: &syn::Block) -> Vec<Stmt> {
                 if !cfg_enabled(&m.attrs) {
                     continue;
                 }
-                let name = path_segs(&m.mac.path).join("::");
-                let toks = macro_tokens(&m.mac.tokens);
-                if m.semi_token.is_some() {
-                    out.push(Stmt::Macro(name, toks));
-                } else {
-                    // trailing macro without semicolon: it is the value of the block
-                    out.push(Stmt::Expr(Expr::Macro(name, toks), false));
+                match macro_expr(&m.mac) {
+                    Expr::Macro(name, toks) => {
+                        if m.semi_token.is_some() {
+                            out.push(Stmt::Macro(name, toks));
+                        } else {
+                            // trailing macro without semicolon: it is the value of the block
+                            out.push(Stmt::Expr(Expr::Macro(name, toks), false));
+                        }
+                    }
+                    // a macro with parsed arguments is an expression statement
+                    parsed => out.push(Stmt::Expr(parsed, m.semi_token.is_some())),
                 }
             }
         }
@@ -913,25 +1095,113 @@ fn signature(
     (self_kind, params, ret)
 }
 
-fn add_fn(out: &mut Output, mut d: FnDecl) {
-    // canonical names are the keys of `fns`; a later duplicate gets a numeric suffix
-    let base = d.name.clone();
-    let mut n = 1;
-    while out.fns.iter().any(|f| f.name == d.name) {
-        n += 1;
-        d.name = format!("{}#{}", base, n);
+/// first path component of the source file: the crate directory (`clock-bound-shm`, ...)
+fn crate_of(source: &str) -> &str {
+    source.split('/').next().unwrap_or("")
+}
+
+/// Keys are unique.  The first item (in the fixed file order, then source order) keeps the plain key; a
+/// later item with the same key gets the crate directory of its file as a prefix (`clock-bound-ffi/lib::f`),
+/// and only if that collides too a numeric suffix `#n`.
+fn unique_key(base: &str, source: &str, taken: &dyn Fn(&str) -> bool) -> String {
+    if !taken(base) {
+        return base.to_string();
     }
+    let prefixed = format!("{}/{}", crate_of(source), base);
+    if !taken(&prefixed) {
+        return prefixed;
+    }
+    let mut n = 2;
+    loop {
+        let k = format!("{}#{}", prefixed, n);
+        if !taken(&k) {
+            return k;
+        }
+        n += 1;
+    }
+}
+
+fn add_fn(out: &mut Output, mut d: FnDecl) {
+    d.name = unique_key(&d.name, &d.source, &|k| out.fns.iter().any(|f| f.name == k));
     out.fns.push(d);
 }
 
 fn add_const(out: &mut Output, mut c: ConstDecl) {
-    let base = c.name.clone();
-    let mut n = 1;
-    while out.consts.iter().any(|f| f.name == c.name) {
-        n += 1;
-        c.name = format!("{}#{}", base, n);
-    }
+    c.name = unique_key(&c.name, &c.source, &|k| {
+        out.consts.iter().any(|f| f.name == k) || out.statics.iter().any(|f| f.name == k)
+    });
     out.consts.push(c);
+}
+
+fn add_static(out: &mut Output, mut c: StaticDecl) {
+    c.name = unique_key(&c.name, &c.source, &|k| {
+        out.consts.iter().any(|f| f.name == k) || out.statics.iter().any(|f| f.name == k)
+    });
+    out.statics.push(c);
+}
+
+/// Self type of an impl as it appears in keys: the bare name, except when the impl is for a concrete
+/// instance of a generic type (`impl FSMTransition for ShmClockState<Synchronized>`): then the generic
+/// arguments are kept.  Arguments that are all generic parameters of the impl itself are dropped
+/// (`impl<W: ShmWrite> ShmUpdater<W>` is `ShmUpdater`).
+fn impl_key_type(im: &syn::ItemImpl) -> String {
+    let bare = self_type_name(&im.self_ty);
+    let params: Vec<String> = im
+        .generics
+        .params
+        .iter()
+        .map(|p| match p {
+            syn::GenericParam::Type(t) => t.ident.to_string(),
+            syn::GenericParam::Lifetime(l) => format!("'{}", l.lifetime.ident),
+            syn::GenericParam::Const(c) => c.ident.to_string(),
+        })
+        .collect();
+    let mut t = &*im.self_ty;
+    loop {
+        match t {
+            syn::Type::Paren(p) => t = &p.elem,
+            syn::Type::Group(g) => t = &g.elem,
+            _ => break,
+        }
+    }
+    if let syn::Type::Path(tp) = t {
+        if let Some(last) = tp.path.segments.last() {
+            if let syn::PathArguments::AngleBracketed(a) = &last.arguments {
+                let args: Vec<String> = a.args.iter().map(|x| tokens_of(x)).collect();
+                if !args.is_empty() && !args.iter().all(|x| params.contains(x)) {
+                    return format!("{}<{}>", bare, args.join(","));
+                }
+            }
+        }
+    }
+    bare
+}
+
+/// discriminants of a field-less enum: an integer literal (possibly negated) where written, else the
+/// previous one plus one, starting at 0 (the Rust reference, "Enumerations / discriminants")
+fn enum_discriminants(en: &syn::ItemEnum) -> Option<Vec<(String, String)>> {
+    let mut next: i128 = 0;
+    let mut out = Vec::new();
+    for v in &en.variants {
+        if !cfg_enabled(&v.attrs) {
+            continue;
+        }
+        if !matches!(v.fields, syn::Fields::Unit) {
+            return None;
+        }
+        if let Some((_, e)) = &v.discriminant {
+            match lit_of_expr(e) {
+                Some((neg, Lit::Int(d, _))) => {
+                    let n: i128 = d.parse().ok()?;
+                    next = if neg { -n } else { n };
+                }
+                _ => return None,
+            }
+        }
+        out.push((v.ident.to_string(), next.to_string()));
+        next += 1;
+    }
+    Some(out)
 }
 
 fn translate_items(items: &[syn::Item], stem: &str, prefix: &str, source: &str, out: &mut Output) {
@@ -970,8 +1240,27 @@ fn translate_items(items: &[syn::Item], stem: &str, prefix: &str, source: &str, 
                     },
                 );
             }
+            syn::Item::Static(c) => {
+                add_static(
+                    out,
+                    StaticDecl {
+                        name: format!("{}::{}", prefix, c.ident),
+                        ty: type_text(&c.ty),
+                        mutable: matches!(c.mutability, syn::StaticMutability::Mut(_)),
+                        init: expr(&c.expr),
+                        source: source.to_string(),
+                    },
+                );
+            }
+            syn::Item::Type(t) => {
+                let name = unique_key(&format!("{}::{}", prefix, t.ident), source, &|k| {
+                    out.aliases.iter().any(|a| a.name == k)
+                });
+                out.aliases.push(AliasDecl { name, ty: type_text(&t.ty), source: source.to_string() });
+            }
             syn::Item::Impl(im) => {
                 let self_ty = self_type_name(&im.self_ty);
+                let key_ty = impl_key_type(im);
                 let trait_ = match &im.trait_ {
                     Some((bang, path, _)) => {
                         let t = path_segs(path).join("::");
@@ -984,9 +1273,9 @@ fn translate_items(items: &[syn::Item], stem: &str, prefix: &str, source: &str, 
                     None => String::new(),
                 };
                 let key_prefix = if trait_.is_empty() {
-                    self_ty.clone()
+                    key_ty.clone()
                 } else {
-                    format!("{} for {}", trait_, self_ty)
+                    format!("{} for {}", trait_, key_ty)
                 };
                 for ii in &im.items {
                     match ii {
@@ -1030,6 +1319,36 @@ fn translate_items(items: &[syn::Item], stem: &str, prefix: &str, source: &str, 
                     }
                 }
             }
+            syn::Item::Trait(tr) => {
+                // provided (default) methods of a trait: `Trait::method`, with `Self` = the trait
+                let tname = tr.ident.to_string();
+                for ti in &tr.items {
+                    if let syn::TraitItem::Fn(m) = ti {
+                        if !cfg_enabled(&m.attrs) {
+                            continue;
+                        }
+                        if let Some(body) = &m.default {
+                            let (self_kind, params, ret) = signature(&m.sig);
+                            let ident = m.sig.ident.to_string();
+                            add_fn(
+                                out,
+                                FnDecl {
+                                    name: format!("{}::{}", tname, ident),
+                                    module: stem.to_string(),
+                                    self_ty: tname.clone(),
+                                    trait_: String::new(),
+                                    ident,
+                                    self_kind,
+                                    params,
+                                    ret,
+                                    body: block(body),
+                                    source: source.to_string(),
+                                },
+                            );
+                        }
+                    }
+                }
+            }
             syn::Item::Struct(st) => {
                 let mut fields = Vec::new();
                 for (i, f) in st.fields.iter().enumerate() {
@@ -1042,13 +1361,10 @@ fn translate_items(items: &[syn::Item], stem: &str, prefix: &str, source: &str, 
                     };
                     fields.push((name, type_text(&f.ty)));
                 }
-                if !out.structs.iter().any(|d| d.name == st.ident.to_string()) {
-                    out.structs.push(StructDecl {
-                        name: st.ident.to_string(),
-                        fields,
-                        source: source.to_string(),
-                    });
-                }
+                let name = unique_key(&st.ident.to_string(), source, &|k| {
+                    out.structs.iter().any(|d| d.name == k)
+                });
+                out.structs.push(StructDecl { name, fields, source: source.to_string() });
             }
             syn::Item::Enum(en) => {
                 let mut variants = Vec::new();
@@ -1058,13 +1374,15 @@ fn translate_items(items: &[syn::Item], stem: &str, prefix: &str, source: &str, 
                     }
                     variants.push((v.ident.to_string(), v.fields.len() as u32));
                 }
-                if !out.enums.iter().any(|d| d.name == en.ident.to_string()) {
-                    out.enums.push(EnumDecl {
-                        name: en.ident.to_string(),
-                        variants,
-                        source: source.to_string(),
-                    });
-                }
+                let name = unique_key(&en.ident.to_string(), source, &|k| {
+                    out.enums.iter().any(|d| d.name == k)
+                });
+                out.enums.push(EnumDecl {
+                    name,
+                    variants,
+                    discr: enum_discriminants(en),
+                    source: source.to_string(),
+                });
             }
             syn::Item::Mod(m) => {
                 if let Some((_, items)) = &m.content {
